@@ -72,21 +72,21 @@ def flattenMap : List (Str × Expr) → Option (List (Str × Value))
 end
 
 /-- `(@ IDENT : Expr ;)*` then `Expr` then end of input -/
-def pRule : Nat → List Tok → List (Str × Expr) → PR (List (Str × Expr) × Expr)
+def pRule (o : Oracle) : Nat → List Tok → List (Str × Expr) → PR (List (Str × Expr) × Expr)
   | 0, _, _ => .error
   | f + 1, ts, acc =>
     match ts with
     | .p ['@'] :: .ident k :: .p [':'] :: r =>
-      match pIf (parseFuel ts) r with
+      match pIf o (parseFuel ts) r with
       | .ok e r1 =>
         match r1 with
-        | .p [';'] :: r2 => pRule f r2 ((k, e) :: acc)
+        | .p [';'] :: r2 => pRule o f r2 ((k, e) :: acc)
         | _ => .error
       | .error => .error
       | .panic x => .panic x
       | .frontier o a => .frontier o a
     | _ =>
-      match pIf (parseFuel ts) ts with
+      match pIf o (parseFuel ts) ts with
       | .ok e [] => .ok (acc.reverse, e) []
       | .ok _ (_ :: _) => .error
       | .error => .error
@@ -115,11 +115,11 @@ end RuleParse
 
 open RuleParse in
 /-- `Rule::parse(text)` -/
-def parseRuleText (s : Str) : RuleRes :=
+def parseRuleText (o : Oracle) (s : Str) : RuleRes :=
   match lex s with
   | none => .parseError
   | some ts =>
-    match pRule (ts.length + 2) ts [] with
+    match pRule o (ts.length + 2) ts [] with
     | .error => .parseError
     | .panic x => .panic x
     | .frontier o a => .frontier o a
